@@ -34,6 +34,18 @@ def gen_domain(rng, nd):
     return kind, dx, kind == "step"
 
 
+def sparsify(rng, arr, p_row):
+    """sparse data: whole spectra that are identically zero ("lights off" frames of a stimulus, a blocked channel, a receptor that
+    is not expressed) among the others -- each row along the last-but-one axis is zeroed with probability p_row, independently;
+    returns the number of zero rows"""
+    if arr.ndim < 2:
+        return 0
+    flat = arr.reshape(-1, arr.shape[-1])
+    z = rng.random(flat.shape[0]) < p_row
+    flat[z] = 0.0
+    return int(np.sum(z))
+
+
 def scale_of(dom, trapz, f, s):
     """Σ|terms| of the exact computation (a tolerance scale only)"""
     y = np.abs(f) * np.abs(s)
@@ -49,8 +61,12 @@ def run(R):
     n = 200 if R.tier == "quick" else 4000
     R.rule = ("random dyadic filters/signals; shapes 2Dx2D, 1Dx1D, 1Dx2D, 2Dx1D, batch x batch, 1-batch x batch, "
               "2D x batch; domains uniform/non-uniform arrays, scalar step with trapz True/False; plus integral() on "
-              "rank 1-3 arrays (any axis, keepdims) and ReceptorEstimator.capture. Non-trivial: >=2 filters and >=2 "
-              "signals with pairwise distinct rows and >=3 domain points (a transposed/diagonal result differs).")
+              "rank 1-3 arrays (any axis, keepdims) and ReceptorEstimator.capture (signals on the filters' own domain: domain left out, or "
+              "the very same domain / step handed over again explicitly as the same object, a copy, a list or a strided view). Sparse data: in "
+              "a third of the matrix cases (up to 7 signals) whole signal rows (each with probability 1/2) and filter rows (1/4) are identically "
+              "zero ('lights off' frames between lit ones; counted by the number of zero signal rows), also in half of the large calls. Non-trivial: >=2 filters and >=2 "
+              "signals with pairwise distinct rows (sparse cases: >=2 distinct non-zero filters and >=2 distinct non-zero signals) and >=3 "
+              "domain points (a transposed/diagonal result differs).")
     RT = 1e-12
     cases = []
     for k in range(n):
@@ -82,10 +98,23 @@ def run(R):
             filt = dyadic(rng, 0, 2, 5, size=(nf + 1, nd))
             sig = dyadic(rng, 0, 4, 5, size=(ns, nd))
             d_ = dom if not np.isscalar(dom) else float(dom)
-            def f_est():
-                est = dreye.ReceptorEstimator(filt, domain=d_)
-                return est.capture(sig)
-            st, out = call(f_est)
+            # the signals live on the filters' own domain: it is left out, or the very same domain is named again explicitly
+            # (the same object, an equal copy, a list, a strided view; the same scalar step)
+            how = str(rng.choice(["none", "same-object", "copy", "other-repr"]))
+            R.count("estimator-domain:" + how)
+            if how == "none":
+                kw = {}
+            elif how == "same-object" or np.isscalar(d_):
+                kw = dict(domain=d_)
+            elif how == "copy":
+                kw = dict(domain=np.array(d_, dtype=float))
+            else:
+                kw = dict(domain=as_given(rng, np.array(d_, dtype=float), R, "estimator-domain", kinds=("list", "strided", "int")))
+            sig_g = as_given(rng, sig, R, "estimator-signals")
+            st, est = call(dreye.ReceptorEstimator, filt, domain=d_)
+            out = est
+            if st == "ok":
+                st, out = call(est.capture, sig_g, **kw)
             c.update(filters=filt, signals=sig)
             R.driver.ask("c%d_0" % k, "capture", dom_text(dom, True), ms(filt), ms(sig))
             cases.append((c, st, out, ("mat", [(filt, sig)], None)))
@@ -95,8 +124,19 @@ def run(R):
         sshape = {"2x2": (ns, nd), "1x1": (nd,), "1x2": (ns, nd), "2x1": (nd,), "bxb": (nb, ns, nd),
                   "1bxb": (nb, ns, nd), "2xb": (nb, ns, nd)}[str(shape)]
         whole = bool(rng.integers(4) == 0)     # whole-number data: may be handed in with an integer dtype
+        sparse = bool(rng.integers(3) == 0) and shape in ("2x2", "bxb", "1bxb", "2xb", "1x2", "2x1")
+        if sparse:
+            # a stimulus sequence with dark frames: more signals, so that lit rows lie between and after several dark ones
+            ns2 = int(rng.integers(2, 8))
+            sshape = tuple(ns2 if (i == len(sshape) - 2) else v for i, v in enumerate(sshape))
         filt = dyadic(rng, -2, 2, 0 if whole else 5, size=fshape)
         sig = dyadic(rng, -4, 4, 0 if whole else 5, size=sshape)
+        if sparse:
+            nz = sparsify(rng, sig, 0.5); nzf = sparsify(rng, filt, 0.25)
+            if sig.ndim >= 2:
+                R.count("sparse:zero signal rows=%s of %d..%d" % (nz if nz < 3 else ">=3", 2, 7))
+            if filt.ndim >= 2:
+                R.count("sparse:zero filter rows=%s" % (nzf if nzf < 2 else ">=2"))
         d_ = as_given(rng, dom, R, "domain", kinds=("same", "list", "strided")) if not np.isscalar(dom) else float(dom)
         filt_g = as_given(rng, filt, R, "filters"); sig_g = as_given(rng, sig, R, "signals")
         st, out = call(dreye.calculate_capture, filt_g, sig_g, domain=d_, trapz=trapz)
@@ -106,7 +146,7 @@ def run(R):
             if st2 != "ok" or not np.array_equal(np.asarray(out), np.asarray(out2)):
                 R.failB(dict(k=k, shape=str(shape), filters=filt, signals=sig, dom=dom, trapz=bool(trapz)),
                         "a second identical call with the same arrays gave a different capture", "C01:%s:second-call-differs" % shape)
-        c.update(filters=filt, signals=sig)
+        c.update(filters=filt, signals=sig, sparse=sparse)
         dt = dom_text(dom, trapz)
         if shape in ("2x2", "bxb", "1bxb", "2xb"):
             pairs = []
@@ -156,7 +196,8 @@ def run(R):
                                               % (b, i, j, float(o3[b, i, j]), rs(m[i][j])))
                 fb, sb = pairs[0]
                 if (fb.shape[0] >= 2 and sb.shape[0] >= 2 and c["nd"] >= 3
-                        and len({tuple(r) for r in fb}) == fb.shape[0] and len({tuple(r) for r in sb}) == sb.shape[0]):
+                        and (len({tuple(r) for r in fb}) == fb.shape[0] if not c.get("sparse") else len({tuple(r) for r in fb if np.any(r)}) >= 2)
+                        and (len({tuple(r) for r in sb}) == sb.shape[0] if not c.get("sparse") else len({tuple(r) for r in sb if np.any(r)}) >= 2)):
                     nontriv = (c["shape"], c["domain_kind"], fb.tobytes(), sb.tobytes())
         elif mode == "scalar":
             f, s = data
@@ -207,10 +248,22 @@ def run(R):
         filt = dyadic(rng, 0, 2, 4, size=(nf, nd))
         sig = dyadic(rng, 0, 4, 4, size=(ns, nd))
         d_ = dom if not np.isscalar(dom) else float(dom)
-        c = dict(k=k, shape="big", n_signals=ns, n_filters=nf, nd=nd, domain_kind=kind, trapz=bool(trapz))
+        dark = np.zeros(ns, dtype=bool)
+        if rng.integers(2):
+            # a long stimulus with "lights off" frames: runs of identically zero signals between the lit ones
+            dark = np.repeat(rng.random(ns // 16 + 1) < 0.3, 16)[:ns]
+            sig[dark] = 0.0
+        R.count("big:dark frames=%s" % ("none" if not dark.any() else "%d%%" % (10 * round(10 * float(dark.mean())))))
+        c = dict(k=k, shape="big", n_signals=ns, n_filters=nf, nd=nd, domain_kind=kind, trapz=bool(trapz), n_dark=int(dark.sum()))
         R.count("shape:big")
         st, out = call(dreye.calculate_capture, filt, sig, domain=d_, trapz=trapz)
-        rows = sorted(set([0, 1, ns - 1, ns - 2, ns // 2] + rng.integers(0, ns, size=25).tolist()))
+        rows = set([0, 1, ns - 1, ns - 2, ns // 2] + rng.integers(0, ns, size=25).tolist())
+        if dark.any() and not dark.all():
+            # rows at the borders between dark and lit runs
+            edges = np.flatnonzero(dark[1:] != dark[:-1])
+            pick = edges[rng.integers(0, len(edges), size=min(6, len(edges)))]
+            rows |= set(pick.tolist()) | set((pick + 1).tolist())
+        rows = sorted(rows)
         R.case(c, ("big", ns, nf, nd, kind), sample=True)
         if st != "ok":
             R.failB(dict(c, impl_error=out), "implementation raised %s on a large input: %s" % (st, out), "C01:big:raises:%s" % st)
